@@ -18,9 +18,9 @@ namespace coloquinte {
 void DetailedPlacer::legalize(
     Circuit &circuit, const ColoquinteParameters &params,
     const std::optional<PlacementCallback> &callback) {
+  params.check();
   circuit.hasCellSizeUpdate_ = false;
   circuit.hasNetUpdate_ = false;
-  params.check();
   std::cout << "Legalization starting (WL " << circuit.hpwl() << ")"
             << std::endl;
   auto startTime = std::chrono::steady_clock::now();
